@@ -144,8 +144,8 @@ def parse_request_body(h: dict, body: bytes) -> dict:
     return {"alloc_hint": alloc, "ctx": cid, "opnum": opnum, "obj": obj, "stub": body[off:], "stub_off": 16 + off}
 
 
-def response_body(stub: bytes, ctx: int = 0) -> bytes:
-    return struct.pack("<IHBB", len(stub), ctx, 0, 0) + stub
+def response_body(stub: bytes, ctx: int = 0, alloc: t.Optional[int] = None) -> bytes:
+    return struct.pack("<IHBB", len(stub) if alloc is None else alloc, ctx, 0, 0) + stub
 
 
 def fault_body(status: int, ctx: int = 0) -> bytes:
@@ -329,6 +329,7 @@ class DC:
         self.header_sign = True
         self.auth = "ntlm"            # ntlm | negotiate
         self.transcript: list[dict] = []
+        self.alloc_hint = "padded"      # alloc_hint policy of RESPONSE PDUs: "padded" | "unpadded" | "zero" (it is only a hint)
         self.getkey_log: list[dict] = []
         self._tables: dict[tuple, KeySet] = {}
         self.epm_extra_towers: list[bytes] = []
@@ -568,7 +569,7 @@ class Connection:
             return finish_pdu(PT_FAULT, PFC_FIRST | PFC_LAST, h["call_id"], fault_body(0x6F7))
         self.log(**ev_)
         towers = self.dc.epm_towers_before + [tower_octets(tcp_tower(ISD_KEY, self.dc.isd_port))] + self.dc.epm_extra_towers
-        return finish_pdu(PT_RESPONSE, PFC_FIRST | PFC_LAST, h["call_id"], response_body(ept_map_response(towers), rq["ctx"]))
+        return finish_pdu(PT_RESPONSE, PFC_FIRST | PFC_LAST, h["call_id"], response_body(ept_map_response(towers), rq["ctx"], 0 if self.dc.alloc_hint == "zero" else None))
 
     def get_key(self, h: dict, rq: dict, stub: bytes, ev_: dict, auth: t.Optional[dict]) -> bytes:
         if rq["opnum"] != 0:
@@ -608,7 +609,7 @@ class Connection:
         body = stub + b"\x00" * pad
         sig_len = len(auth["value"])
         hdr = pdu_header(PT_RESPONSE, PFC_FIRST | PFC_LAST, 16 + 8 + len(body) + 8 + sig_len, sig_len, h["call_id"])
-        hdr += struct.pack("<IHBB", len(body), ctx_id, 0, 0)
+        hdr += struct.pack("<IHBB", {"padded": len(body), "unpadded": len(stub), "zero": 0}[self.dc.alloc_hint], ctx_id, 0, 0)   # only a hint
         tr8 = struct.pack("<BBBBI", auth["type"], auth["level"], pad, 0, auth["ctx"])
         so = iov.BufferType.sign_only if self.sign_header else iov.BufferType.data_readonly
         res = self.ctx.wrap_iov([(so, hdr), body, (so, tr8), iov.BufferType.header], encrypt=True, qop=None)
